@@ -5,8 +5,15 @@
   implementation's own dump (`mutes_eq_bruteforce`, classes verdict /
   silencedBy / revival — see Driver/SilenceUtil.lean).
 
+  Interleaved calls (`imutes`: store operations between the steps of one
+  `Mutes`) are replayed on the micro-step model `mutesI`; their own answers are
+  held against the bracket of `mutes_interleaved_bracket`, and what they leave
+  in the cache is tested by every later `mutes` (class
+  `interleaved-update-lost`).
+
     case <id> retention=<ns> fix=<0|1>
     <common op> 0 …
+    imutes 0 <now> <ls> <pt>~<op>~0~… … -> <v> <by> <pt>~<obs…>|<pt>~- …
 -/
 import Driver.SilenceUtil
 
@@ -20,7 +27,7 @@ structure St where
 def step (σ : St) (op obs : List String) : St × List Msg :=
   match op with
   | o :: _i :: rest =>
-    match stepCommon σ.cfg σ.inst (o :: rest) obs with
+    match stepSil σ.cfg σ.inst (o :: rest) obs with
     | some (x, msgs) => ({ σ with inst := x }, msgs)
     | none => (σ, [.diff "parse" "?" (" ".intercalate op)])
   | _ => (σ, [.diff "parse" "?" (" ".intercalate op)])
